@@ -213,6 +213,31 @@ Lemma table_parent_optional :
   forallb (fun c => forallb (fun fd => negb (String.eqb (fst fd) "parent") || negb (is_required (snd fd))) (snd c)) expr_classes = true.
 Proof. vm_compute. reflexivity. Qed.
 
+Lemma table_fields_distinct : forallb (fun c => distinct (keys_of (snd c))) expr_classes = true.
+Proof. vm_compute. reflexivity. Qed.
+
+Lemma distinct_cons x l : distinct (x :: l) = true -> ~ In x l /\ distinct l = true.
+Proof. simpl. intro H. apply andb_true_iff in H as [H1 H2]. split; [|assumption]. apply mem_str_false. destruct (mem_str x l); [discriminate|reflexivity]. Qed.
+
+(* filling the constructor from a document that gives exactly the dumped fields, in dump order, changes nothing *)
+Lemma fill_fields_id : forall (spec : list (string * c08_default)) (fs : list (string * ev)),
+  distinct (keys_of spec) = true ->
+  keys_of fs = filter (fun k => negb (String.eqb k "parent")) (keys_of spec) ->
+  filter (fun kv => negb (String.eqb (fst kv) "parent"))
+         (map (fun fd => (fst fd, match lookup (fst fd) fs with Some v => v | None => default_ev (snd fd) end)) spec) = fs.
+Proof.
+  induction spec as [|[f d] spec IH]; intros fs Hd Hk.
+  - destruct fs; [reflexivity|discriminate].
+  - cbn [keys_of map fst] in Hd. apply distinct_cons in Hd as [Hnin Hd]. cbn [keys_of map fst filter] in Hk. cbn [map filter fst snd].
+    destruct (negb (String.eqb f "parent")) eqn:Enp.
+    + destruct fs as [|[k v] fs']; [discriminate|]. cbn [keys_of map fst] in Hk. inversion Hk as [[Hkf Hk']]. subst k.
+      cbn [lookup]. rewrite String.eqb_refl. f_equal.
+      etransitivity; [|exact (IH fs' Hd Hk')]. f_equal. apply map_ext_in. intros [f' d'] Hin. cbn [fst snd lookup].
+      destruct (String.eqb_spec f f') as [->|Hne]; [|reflexivity].
+      exfalso. apply Hnin. unfold keys_of. apply in_map_iff. exists (f', d'). auto.
+    + apply IH; assumption.
+Qed.
+
 Lemma class_fields_in c spec : class_fields c = Some spec -> In (c, spec) expr_classes.
 Proof. unfold class_fields. apply lookup_some_in. Qed.
 
@@ -325,9 +350,10 @@ Proof.
     rewrite Hfs. simpl bind.
     assert (Hkr : keys_of (map relf fs) = keys_of fs).
     { unfold keys_of. rewrite map_map. apply map_ext. intros [k v]; reflexivity. }
-    fold nonparent. rewrite Hkr, Hkeys. rewrite list_eqb_refl.
     rewrite Hname.
-    rewrite filter_nonparent_id by (rewrite Hkr, Hkeys; apply forallb_filter_self).
+    assert (Hdist : distinct (keys_of spec) = true).
+    { pose proof table_fields_distinct as HT. rewrite forallb_forall in HT. exact (HT _ (class_fields_in _ _ Hspec)). }
+    rewrite (fill_fields_id spec (map relf fs) Hdist) by (rewrite Hkr; exact Hkeys).
     cbn [reload_ev]. change (map (fun kv : string * ev => let (k, v) := kv in (k, reload_ev v)) fs) with (map relf fs).
     destruct (String.eqb c "ExprAttribute") eqn:Eattr; [|reflexivity].
     (* ExprAttribute: the chain is re-linked *)
@@ -1388,3 +1414,186 @@ Lemma refuted_full_builtin :
   exists j, enc_full (w_F [] (Some (JStr "/x/w.py"))) "" (w_module [] (FPStr "/x/w.py")) = Ok j
             /\ decode j = Ok (PTree (w_module [] (FPStr "/x/w.py"))).
 Proof. split; [vm_compute; reflexivity|]. eexists. split; vm_compute; reflexivity. Qed.
+
+(* ------------------------------------------------------------------------------------------------ *)
+(* 15. The decoding gaps are exact: a tree with one of them does not decode (no hypothesis on the tree) *)
+
+Lemma mapM_dec_kv_lookup kvs : forall d k,
+  mapM dec_kv kvs = Ok d ->
+  match lookup k kvs with
+  | Some j => exists v, decode j = Ok v /\ lookup k d = Some v
+  | None => lookup k d = None
+  end.
+Proof.
+  induction kvs as [|[k' j] r IH]; intros d k H.
+  - rewrite mapM_nil in H. inversion H. reflexivity.
+  - rewrite mapM_cons in H. cbn [dec_kv] in H. destruct (decode j) as [v|] eqn:Ej; [|discriminate]. cbn [bind] in H.
+    destruct (mapM dec_kv r) as [d'|] eqn:Er; [|discriminate]. cbn [bind] in H. inversion H; subst d.
+    cbn [lookup]. destruct (String.eqb k' k); [eauto|]. apply IH. reflexivity.
+Qed.
+
+Lemma lookup_none_has_key {A} k (d : list (string * A)) : lookup k d = None -> has_key k d = false.
+Proof. unfold has_key. intros ->. reflexivity. Qed.
+
+Ltac bind_step := match goal with
+  | |- exists e, bind ?r _ = Err e => let E := fresh "E" in destruct r eqn:E; cbn [bind]; [|eauto]
+  end.
+
+Lemma load_class_no_lineno d : lookup "lineno" d = None -> exists e, load_class d = Err e.
+Proof. intro H. unfold load_class. bind_step. unfold getitem at 1. rewrite H. simpl. eauto. Qed.
+Lemma load_function_no_lineno d : lookup "lineno" d = None -> exists e, load_function d = Err e.
+Proof. intro H. unfold load_function. do 4 bind_step. unfold getitem at 1. rewrite H. simpl. eauto. Qed.
+Lemma load_attribute_no_lineno d : lookup "lineno" d = None -> exists e, load_attribute d = Err e.
+Proof. intro H. unfold load_attribute. bind_step. unfold getitem at 1. rewrite H. simpl. eauto. Qed.
+Lemma load_alias_no_lineno d : lookup "lineno" d = None -> exists e, load_alias d = Err e.
+Proof. intro H. unfold load_alias. do 2 bind_step. unfold getitem at 1. rewrite H. simpl. eauto. Qed.
+
+Lemma load_module_bad_filepath d v :
+  lookup "filepath" d = Some v -> (v = PNull \/ exists l, v = PList l) -> exists e, load_module d = Err e.
+Proof.
+  intros H Hv. unfold load_module. bind_step. unfold getitem at 1. rewrite H. cbn [of_option bind].
+  destruct Hv as [->|[l ->]]; simpl; eauto.
+Qed.
+
+(* every loader, when it succeeds, returns a tree *)
+Ltac bind_inv H :=
+  repeat match type of H with
+         | bind ?r _ = Ok _ => let E := fresh "E" in destruct r eqn:E; cbn [bind] in H; [|discriminate H]
+         end.
+
+Lemma decode_enc_min_is_tree t v : decode (enc_min t) = Ok v -> exists t', v = PTree t'.
+Proof.
+  intro H. destruct t as [n ln eln doc ls ms x|n tp ln eln]; cbn [enc_min] in H; rewrite decode_obj in H.
+  - destruct (mapM dec_kv _) as [d|] eqn:Ed in H; [|discriminate]. cbn [bind] in H.
+    pose proof (mapM_dec_kv_lookup _ d "cls" Ed) as Hc. pose proof (mapM_dec_kv_lookup _ d "kind" Ed) as Hk.
+    assert (Hcls : lookup "cls" d = None).
+    { revert Hc. destruct ln, eln, doc, x; unfold enc_extra, enc_ev_field;
+        repeat match goal with |- context [is_vnone ?v] => destruct (is_vnone v) end; cbn; auto. }
+    assert (Hkind : lookup "kind" d = Some (PStr (kind_of x))).
+    { cbn in Hk. destruct Hk as [v' [Hv' Hl]]. inversion Hv'; subst. exact Hl. }
+    unfold hook in H. rewrite (lookup_none_has_key _ _ Hcls), Hkind in H.
+    destruct x; cbn [kind_of] in H;
+      repeat match type of H with context [String.eqb ?a ?b] => change (String.eqb a b) with true in H || change (String.eqb a b) with false in H end;
+      cbn iota in H.
+    + unfold load_module in H. bind_inv H. inversion H. eauto.
+    + unfold load_class in H. bind_inv H. inversion H. eauto.
+    + unfold load_function in H. bind_inv H. inversion H. eauto.
+    + unfold load_attribute in H. bind_inv H. inversion H. eauto.
+  - destruct (mapM dec_kv _) as [d|] eqn:Ed in H; [|discriminate]. cbn [bind] in H.
+    pose proof (mapM_dec_kv_lookup _ d "cls" Ed) as Hc. pose proof (mapM_dec_kv_lookup _ d "kind" Ed) as Hk.
+    assert (Hcls : lookup "cls" d = None).
+    { revert Hc. unfold truthy_field. destruct ln as [z|]; [destruct (Z.eqb z 0)|]; (destruct eln as [z'|]; [destruct (Z.eqb z' 0)|]); cbn; auto. }
+    assert (Hkind : lookup "kind" d = Some (PStr kind_alias)).
+    { cbn in Hk. destruct Hk as [v' [Hv' Hl]]. inversion Hv'; subst. exact Hl. }
+    unfold hook in H. rewrite (lookup_none_has_key _ _ Hcls), Hkind in H.
+    change (String.eqb kind_alias kind_module) with false in H. change (String.eqb kind_alias kind_class) with false in H.
+    change (String.eqb kind_alias kind_function) with false in H. change (String.eqb kind_alias kind_attribute) with false in H.
+    change (String.eqb kind_alias kind_alias) with true in H. cbn iota in H.
+    unfold load_alias in H. bind_inv H. inversion H. eauto.
+Qed.
+
+(* a members dict with a key "cls" or "kind" is not returned as a dict *)
+Lemma members_dict_fails ms :
+  (mem_str "cls" (keys_of ms) || mem_str "kind" (keys_of ms))%bool = true ->
+  exists e, decode (JObj (map (fun km : string * tree => let (k, m) := km in (k, enc_min m)) ms)) = Err e.
+Proof.
+  intro Hk. rewrite decode_obj.
+  destruct (mapM dec_kv _) as [d|] eqn:Ed; [|simpl; eauto]. cbn [bind].
+  assert (Hval : forall k, mem_str k (keys_of ms) = true -> exists t', lookup k d = Some (PTree t')).
+  { intros k Hm. pose proof (mapM_dec_kv_lookup _ d k Ed) as Hl.
+    assert (Hex : exists m, lookup k (map (fun km : string * tree => let (k0, m) := km in (k0, enc_min m)) ms) = Some (enc_min m)).
+    { clear -Hm. induction ms as [|[k' m] r IH]; [discriminate|]. cbn [map lookup]. unfold keys_of, mem_str in Hm. cbn [map existsb fst] in Hm.
+      rewrite (String.eqb_sym k k') in Hm. destruct (String.eqb k' k); [eauto|]. apply IH. exact Hm. }
+    destruct Hex as [m Hm']. rewrite Hm' in Hl. destruct Hl as [v [Hv Hl]].
+    destruct (decode_enc_min_is_tree _ _ Hv) as [t' ->]. eauto. }
+  unfold hook. destruct (mem_str "cls" (keys_of ms)) eqn:Hc.
+  - destruct (Hval _ Hc) as [t' Ht]. unfold has_key. rewrite Ht. unfold load_expression. rewrite Ht. eauto.
+  - cbn [orb] in Hk. destruct (Hval _ Hk) as [t' Ht].
+    destruct (has_key "cls" d) eqn:Hh.
+    + unfold load_expression. unfold has_key in Hh. destruct (lookup "cls" d) as [v|] eqn:Hv; [|discriminate].
+      pose proof (mapM_dec_kv_lookup _ d "cls" Ed) as Hl.
+      destruct (lookup "cls" (map (fun km : string * tree => let (k0, m) := km in (k0, enc_min m)) ms)) as [j|] eqn:Hj.
+      * exfalso. assert (mem_str "cls" (keys_of ms) = true); [|congruence].
+        clear -Hj. induction ms as [|[k' m] r IH]; [discriminate|]. cbn [map lookup] in Hj. unfold keys_of, mem_str. cbn [map existsb fst].
+        rewrite (String.eqb_sym "cls" k'). destruct (String.eqb k' "cls"); [reflexivity|]. apply IH. exact Hj.
+      * congruence.
+    + rewrite Ht. unfold load_parameter. do 2 bind_step. unfold getitem at 1. rewrite Ht. cbn [of_option bind]. eauto.
+Qed.
+
+Lemma in_enc_fields_members n ln eln doc ls ms x :
+  lookup "members" ([("kind", JStr (kind_of x)); ("name", JStr n)] ++ opt_field "lineno" ln ++ opt_field "endlineno" eln ++ enc_docfield doc
+                    ++ [("labels", JArr (map JStr ls));
+                        ("members", JObj (map (fun km : string * tree => let (k, m) := km in (k, enc_min m)) ms))] ++ enc_extra x)
+  = Some (JObj (map (fun km : string * tree => let (k, m) := km in (k, enc_min m)) ms)).
+Proof. destruct ln, eln, doc; reflexivity. Qed.
+
+Theorem gap_decode_fails : forall t,
+  (gap_lineno t || gap_filepath t || gap_memberkey t)%bool = true -> exists e, decode (enc_min t) = Err e.
+Proof.
+  induction t using tree_ind'; intro Hg.
+  - (* alias: only the line-number gap applies *)
+    cbn [gap_lineno gap_filepath gap_memberkey orb] in Hg. rewrite !orb_false_r in Hg.
+    cbn [enc_min]. rewrite decode_obj.
+    destruct (mapM dec_kv _) as [d|] eqn:Ed; [|simpl; eauto]. cbn [bind].
+    pose proof (mapM_dec_kv_lookup _ d "cls" Ed) as Hc. pose proof (mapM_dec_kv_lookup _ d "kind" Ed) as Hk.
+    pose proof (mapM_dec_kv_lookup _ d "lineno" Ed) as Hl.
+    assert (Hcls : lookup "cls" d = None).
+    { revert Hc. unfold truthy_field. destruct ln as [z|]; [destruct (Z.eqb z 0)|]; (destruct eln as [z'|]; [destruct (Z.eqb z' 0)|]); cbn; auto. }
+    assert (Hkind : lookup "kind" d = Some (PStr kind_alias)).
+    { cbn in Hk. destruct Hk as [v' [Hv' Hl']]. inversion Hv'; subst. exact Hl'. }
+    assert (Hline : lookup "lineno" d = None).
+    { revert Hl. unfold truthy_field. destruct ln as [z|]; [destruct (Z.eqb z 0); [|discriminate]|];
+        (destruct eln as [z'|]; [destruct (Z.eqb z' 0)|]); cbn; auto. }
+    unfold hook. rewrite (lookup_none_has_key _ _ Hcls), Hkind.
+    change (String.eqb kind_alias kind_module) with false. change (String.eqb kind_alias kind_class) with false.
+    change (String.eqb kind_alias kind_function) with false. change (String.eqb kind_alias kind_attribute) with false.
+    change (String.eqb kind_alias kind_alias) with true. cbn iota. apply load_alias_no_lineno. assumption.
+  - (* object *)
+    cbn [enc_min]. rewrite decode_obj.
+    destruct (mapM dec_kv _) as [d|] eqn:Ed; [|simpl; eauto]. cbn [bind].
+    pose proof (mapM_dec_kv_lookup _ d "members" Ed) as Hmem. rewrite in_enc_fields_members in Hmem.
+    destruct Hmem as [vm [Hvm _]].
+    (* a gap below: the members dict would not have decoded *)
+    assert (Hsub : forall km, In km ms -> (gap_lineno (snd km) || gap_filepath (snd km) || gap_memberkey (snd km))%bool = true -> False).
+    { intros [k m] Hin Hgm. rewrite Forall_forall in H. destruct (H _ Hin Hgm) as [e He]. cbn [snd] in He.
+      assert (Hin' : In (k, enc_min m) (map (fun km : string * tree => let (k, m) := km in (k, enc_min m)) ms)).
+      { apply in_map_iff. exists (k, m). auto. }
+      destruct (decode_obj_field_err _ _ _ _ Hin' He) as [e' He']. congruence. }
+    assert (Hkeys : (mem_str "cls" (keys_of ms) || mem_str "kind" (keys_of ms))%bool = false).
+    { destruct (mem_str "cls" (keys_of ms) || mem_str "kind" (keys_of ms))%bool eqn:Hk; [|reflexivity].
+      destruct (members_dict_fails ms Hk) as [e He]. congruence. }
+    assert (Hnone : forall f, (forall km, In km ms -> f (snd km) = true -> (gap_lineno (snd km) || gap_filepath (snd km) || gap_memberkey (snd km))%bool = true) ->
+                    existsb (fun km : string * tree => let (_, m) := km in f m) ms = false).
+    { intros f Hf. destruct (existsb _ ms) eqn:He; [|reflexivity]. apply existsb_exists in He as [[k m] [Hin Hfm]].
+      exfalso. apply (Hsub (k, m) Hin). apply (Hf (k, m) Hin). exact Hfm. }
+    cbn [gap_lineno gap_filepath gap_memberkey] in Hg.
+    rewrite (Hnone gap_lineno) in Hg by (intros km _ ->; reflexivity).
+    rewrite (Hnone gap_filepath) in Hg by (intros km _ ->; apply orb_true_iff; left; apply orb_true_r).
+    rewrite (Hnone gap_memberkey) in Hg by (intros km _ ->; apply orb_true_r).
+    rewrite Hkeys in Hg. rewrite !orb_false_r in Hg.
+    (* the gap is at this node *)
+    pose proof (mapM_dec_kv_lookup _ d "cls" Ed) as Hc. pose proof (mapM_dec_kv_lookup _ d "kind" Ed) as Hk.
+    pose proof (mapM_dec_kv_lookup _ d "lineno" Ed) as Hl. pose proof (mapM_dec_kv_lookup _ d "filepath" Ed) as Hf.
+    assert (Hcls : lookup "cls" d = None).
+    { revert Hc. destruct ln, eln, doc, x; unfold enc_extra, enc_ev_field;
+        repeat match goal with |- context [is_vnone ?v] => destruct (is_vnone v) end; cbn; auto. }
+    assert (Hkind : lookup "kind" d = Some (PStr (kind_of x))).
+    { cbn in Hk. destruct Hk as [v' [Hv' Hl']]. inversion Hv'; subst. exact Hl'. }
+    unfold hook. rewrite (lookup_none_has_key _ _ Hcls), Hkind.
+    destruct x as [fp|bases decos|decos params ret|v a]; cbn [kind_of is_module negb andb orb] in *;
+      repeat match goal with |- context [String.eqb ?a ?b] => change (String.eqb a b) with true || change (String.eqb a b) with false end;
+      cbn iota.
+    + (* module: file path *)
+      assert (Hfp : exists v, lookup "filepath" d = Some v /\ (v = PNull \/ exists l, v = PList l)).
+      { revert Hf. destruct ln, eln, doc; cbn; intros [v [Hv Hl']]; exists v; (split; [exact Hl'|]);
+          (destruct fp as [|s|l]; [inversion Hv; auto|discriminate Hg|
+             right; cbn [enc_fpath] in Hv; rewrite dec_labels in Hv; inversion Hv; eauto]). }
+      destruct Hfp as [v [Hv Hb]]. eapply load_module_bad_filepath; eassumption.
+    + destruct ln as [z|]; [discriminate Hg|].
+      apply load_class_no_lineno. revert Hl. destruct eln, doc; cbn; auto.
+    + destruct ln as [z|]; [discriminate Hg|].
+      apply load_function_no_lineno. revert Hl. destruct eln, doc; cbn; auto.
+    + destruct ln as [z|]; [discriminate Hg|].
+      apply load_attribute_no_lineno. revert Hl. destruct eln, doc; unfold enc_extra, enc_ev_field;
+        repeat match goal with |- context [is_vnone ?v] => destruct (is_vnone v) end; cbn; auto.
+Qed.
